@@ -246,6 +246,48 @@ def sub_from_molecule(ctx):
                           f"box face is {margin:.3f} < extension - spacing = {ext - spacing:.3f}", case, margin=margin)
 
 
+def sub_from_molecule_weights(ctx):
+    """The weighting scheme named in from_molecule / from_cube is the one the grid gets: its weights are those of the plain
+    constructor with the same origin, axes, shape and scheme."""
+    import os
+    import tempfile
+
+    from grid.cubic import UniformGrid
+
+    nums, coords = MOLECULES["water"]
+    for scheme in ("Rectangle", "Trapezoid", "Fourier1", "Alternative"):
+        for rot in (True, False):
+            ctx.count(section="from_molecule")
+            case = {"sub": "from_molecule_weights", "scheme": scheme, "rotate": rot}
+            with warnings.catch_warnings():
+                warnings.simplefilter("ignore")
+                g = UniformGrid.from_molecule(nums, coords, spacing=0.7, extension=1.5, rotate=rot, weight=scheme)
+                ref = UniformGrid(g.origin, g.axes, np.array(g.shape), weight=scheme)
+            ctx.nontrivial(("fmw", scheme, rot), section="from_molecule")
+            if not np.allclose(g.weights, ref.weights, rtol=1e-13, atol=0):
+                ctx.violation("from_molecule:weights-not-of-the-named-scheme", f"from_molecule(weight={scheme!r}, rotate={rot}): weights differ from "
+                              f"UniformGrid(same origin, axes, shape, weight={scheme!r})", case)
+    d = tempfile.mkdtemp(prefix="c13w")
+    try:
+        with warnings.catch_warnings():
+            warnings.simplefilter("ignore")
+            g = UniformGrid(np.array([-1.0, -0.5, -0.7]), np.diag([0.5, 0.6, 0.4]), np.array([4, 3, 5]))
+            fn = os.path.join(d, "w.cube")
+            g.generate_cube(fn, np.arange(60.0), coords, nums)
+            for scheme in ("Rectangle", "Trapezoid", "Fourier1", "Alternative"):
+                ctx.count(section="cube")
+                g2 = UniformGrid.from_cube(fn, weight=scheme)
+                ref = UniformGrid(g2.origin, g2.axes, np.array(g2.shape), weight=scheme)
+                ctx.nontrivial(("fcw", scheme), section="cube")
+                if not np.allclose(g2.weights, ref.weights, rtol=1e-13, atol=0):
+                    ctx.violation("cube:weights-not-of-the-named-scheme", f"from_cube(weight={scheme!r}): weights differ from the plain constructor's",
+                                  {"sub": "from_molecule_weights", "scheme": scheme})
+    finally:
+        import shutil
+
+        shutil.rmtree(d, ignore_errors=True)
+
+
 def _centred_on_charge(g, nums, coords, spacing=None, ext=None):
     """Signature of the recorded finding: the box is the documented one in SIZE (per axis ceil((span + 2 extension) /
     spacing) nodes) but is centred on the centre of nuclear charge instead of on the span of the nuclei, and its last
@@ -559,6 +601,7 @@ def sub_refill(ctx):
 
 SUBS = {
     "index": sub_index_maps, "layout": sub_layout, "weights": sub_weights, "from_molecule": sub_from_molecule,
+    "from_molecule_weights": sub_from_molecule_weights,
     "closest": sub_closest, "cube": sub_cube, "interp-extra": sub_interp_extra, "refill": sub_refill,
 }
 
